@@ -1,4 +1,40 @@
 /-
-C02 — placeholder (theorems follow)
+C02 — Recursive FGGs: Kleene iteration, stability, least fixed point.
+(`kleene_cell_eq_derivSum` in Props/C01.lean identifies `kleene n` with the sum over derivations of
+depth ≤ n; here: what the model's exact fixed-point computation delivers.)
 -/
 import FggsModel.Sem
+import FggsProofs.Props.C01
+
+namespace C02
+open Fggs Fggs.Sem
+
+variable {K : Type}
+
+theorem kleene_succ (S : SR K) (G : Grammar K) (n : Nat) :
+    kleene S G (n + 1) = F S G (kleene S G n) := rfl
+
+/-- once an iterate is a fixed point of F, Kleene iteration stays there: adding deeper derivations
+changes nothing, so the iterate is the limit of the sums over derivations of bounded depth -/
+theorem kleene_stable (S : SR K) (G : Grammar K) (n : Nat)
+    (h : F S G (kleene S G n) = kleene S G n) : ∀ m, kleene S G (n + m) = kleene S G n := by
+  intro m
+  induction m with
+  | zero => rfl
+  | succ m ih =>
+    have : n + (m + 1) = (n + m) + 1 := by omega
+    rw [this, kleene_succ, ih, h]
+
+/-- … and therefore equals, cell by cell, the sum over the derivations of ANY larger depth bound -/
+theorem stable_eq_all_deeper_derivSums (S : SR K) (hS : C01.SRLaws S) (G : Grammar K)
+    (hty : ∀ r ∈ G.rules, r.lhs < G.nts.length ∧
+        G.shapeOf (r.ext.map (fun v => r.nodes[v]?.getD 0)) = G.shapeOf (G.nts[r.lhs]?.getD []) ∧
+        ∀ e ∈ r.edges, e.1 < G.T + G.nts.length ∧
+          (e.2.map (fun v => r.nodes[v]?.getD 0)) = G.labelType e.1 ∧ ∀ v ∈ e.2, v < r.nodes.length)
+    (n : Nat) (h : F S G (kleene S G n) = kleene S G n) (m X : Nat) (hX : X < G.nts.length)
+    (a : List Nat) (ha : a ∈ assigns (G.shapeOf (G.nts[X]?.getD []))) :
+    C01.valCell S G (kleene S G n) X a = S.sum ((derivs G (n + m) X).map (fun d => derivCell S G (n + m) d a)) := by
+  rw [← kleene_stable S G n h m]
+  exact C01.kleene_cell_eq_derivSum S hS G hty (n + m) X hX a ha
+
+end C02
